@@ -116,7 +116,7 @@ UNIT = {
      'rewrites': [{'rule': 'R3', 'find': 'PdfError::PrimitiveNotAllowed { allowed, found: flags }', 'replace': 'PdfError::PrimitiveNotAllowed'}]},
 
   'parse_with_lexer_ctx': {'kind': 'fn', 'file': P, 'container': None, 'name': 'parse_with_lexer_ctx', 'ret': 'res',
-     'props': ['C03', 'C04', 'C11', 'C01'],
+     'props': ['C03', 'C04', 'C11', 'C01', 'C06'],
      'requires': ['old(lexer).wf()'],
      'ensures': [('ctx_frame', FRAME),
                  ('err_restores_position', 'res is Err ==> final(lexer).pos == old(lexer).pos'),
@@ -126,7 +126,7 @@ UNIT = {
      'rewrites': [{'rule': 'R2', 'find': 'Ok(r) => Ok(r),', 'replace': 'Ok(v) => Ok(v),'}]},
 
   '_parse_with_lexer_ctx': {'kind': 'fn', 'file': P, 'container': None, 'name': '_parse_with_lexer_ctx', 'ret': 'res',
-     'props': ['C03', 'C04', 'C11', 'C01'],
+     'props': ['C03', 'C04', 'C11', 'C01', 'C06'],
      'requires': ['old(lexer).wf()'],
      'ensures': [('ctx_frame', FRAME),
                  ('ok_consumes', PROGRESS)]
@@ -199,7 +199,7 @@ UNIT = {
      ]},
 
   'parse_dictionary_object': {'kind': 'fn', 'file': P, 'container': None, 'name': 'parse_dictionary_object', 'ret': 'res',
-     'props': ['C03', 'C04', 'C11', 'C01'],
+     'props': ['C03', 'C04', 'C11', 'C01', 'C06'],
      'requires': ['old(lexer).wf()'],
      'ensures': [('dict_frame', FRAME), ('ok_consumes', PROGRESS),
                  ('value_dictionary', 'dict_at(r, env_of(old(lexer), ctx), old(lexer).pos as int, max_depth as nat, Map::<Seq<u8>, Val>::empty()) matches Some(x)'
